@@ -304,7 +304,7 @@ Proof.
         set (sv1 := set_tree sv (set_data (sv_tree sv) (pp ++ [k]) d)).
         assert (H1 : step_ok 0 0 0 sv sv1).
         { unfold step_ok, sv1, paths. cbn [set_tree sv_tree]. rewrite paths_set_data, SZ_set_data, length_set_data.
-          repeat split; try lia; try reflexivity; exact Hp. }
+          repeat split; try lia; try reflexivity; try exact Hp. change (tw sv <= tw sv + 0). lia. }
         destruct q; [eapply step_ok_weaken; [| | |exact H1]; lia|].
         assert (Hf1 : exists n1, find_node (sv_tree sv1) (pp ++ [k]) = Some n1 /\ n_subs n1 = n_subs n).
         { unfold sv1. cbn [set_tree sv_tree]. unfold set_data, map_node. clear -Hf.
@@ -326,9 +326,11 @@ Proof.
       assert (Hlen : length (n_subs newn) <= NS sv) by (subst newn; cbn [n_subs]; apply new_node_table_len).
       assert (H1 : step_ok 1 (1 + NS sv) 0 sv sv1).
       { unfold step_ok, sv1, paths, add_node. cbn [set_tree sv_tree]. rewrite map_app, app_length, SZ_app. cbn [map length].
-        repeat split; try lia.
-        - apply NoDup_app_one; [exact Hp|]. subst newn. cbn [n_path]. apply find_node_none_paths. exact Hf.
-        - unfold SZ at 2. cbn [map]. rewrite list_sum_cons. cbn [list_sum fold_right]. unfold nw. lia. }
+        split; [reflexivity|]. split.
+        { apply NoDup_app_one; [exact Hp|]. subst newn. cbn [n_path]. apply find_node_none_paths. exact Hf. }
+        split; [lia|]. split.
+        { unfold SZ at 2. cbn [map]. rewrite list_sum_cons. cbn [list_sum fold_right]. unfold nw. lia. }
+        change (tw sv <= tw sv + 0). lia. }
       assert (Hg1 : good_sv sv1) by (exact (good_step _ _ _ _ _ (conj Hi Hp) H1)).
       assert (Hns : NS sv1 = NS sv) by (apply NS_ids; apply H1).
       assert (H2 : forall dd oo, step_ok 1 (1 + NS sv) (NS sv) sv (if q then sv1 else notify_changed sv1 by_ (pp ++ [k]) dd oo false)).
@@ -348,11 +350,219 @@ Proof.
       * specialize (H2 empty_payload None).
         set (sv2 := if q then sv1 else notify_changed sv1 by_ (pp ++ [k]) empty_payload None false) in *.
         assert (Hg2 : good_sv sv2) by (exact (good_step _ _ _ _ _ (conj Hi Hp) H2)).
-        pose proof (IH sv2 by_ (pp ++ [k]) d dc dov q Hg2) as H3.
+        pose proof (IH sv2 by_ (pp ++ [k]) d false dov q Hg2) as H3.
         assert (Hns2 : NS sv2 = NS sv) by (apply NS_ids; apply H2).
         pose proof (step_ok_trans _ _ _ _ _ _ _ _ _ H2 H3) as H4.
         eapply step_ok_weaken; [| | |exact H4]; rewrite ?Hns2; cbn [length]; try lia.
         destruct H2 as [_ [_ [_ [Hsz _]]]]. nia.
+Qed.
+
+(* ------------------------------------------------------------------ removal: items + node weight never grow *)
+
+Definition shrink_ok (sv0 sv : server) : Prop :=
+  ids sv = ids sv0 /\ NoDup (paths sv) /\ length (sv_tree sv) <= length (sv_tree sv0) /\
+  SZ (sv_tree sv) <= SZ (sv_tree sv0) /\ tw sv + SZ (sv_tree sv) <= tw sv0 + SZ (sv_tree sv0).
+
+Lemma shrink_refl : forall sv, good_sv sv -> shrink_ok sv sv.
+Proof. intros sv [_ H]. unfold shrink_ok. repeat split; try lia; try reflexivity; exact H. Qed.
+
+Lemma shrink_leave : forall (sv0 acc : server) (by_ : sid) (notify : bool) (q : path), NoDup (ids sv0) -> shrink_ok sv0 acc ->
+  shrink_ok sv0 (match find_node (sv_tree acc) q with
+                 | None => acc
+                 | Some n =>
+                   let sv1 := if notify then notify_changed acc by_ q (n_data n) (Some (n_data n)) true else acc in
+                   set_tree sv1 (remove_node (sv_tree sv1) q)
+                 end).
+Proof.
+  intros sv0 acc by_ notify q Hnd [H1 [H2 [H3 [H4 H5]]]].
+  destruct (find_node (sv_tree acc) q) as [n|] eqn:Hf; [|unfold shrink_ok; repeat split; assumption].
+  cbv zeta.
+  set (sv1 := if notify then notify_changed acc by_ q (n_data n) (Some (n_data n)) true else acc).
+  assert (Ht : sv_tree sv1 = sv_tree acc) by (subst sv1; destruct notify; [apply tree_notify_changed|reflexivity]).
+  assert (Hi : ids sv1 = ids acc) by (subst sv1; destruct notify; [apply ids_notify_changed|reflexivity]).
+  assert (Hw : tw sv1 <= tw acc + length (n_subs n)).
+  { subst sv1. destruct notify; [|lia].
+    pose proof (tw_notify_changed acc by_ q (n_data n) (Some (n_data n)) true ltac:(rewrite H1; exact Hnd)) as H. rewrite Hf in H. exact H. }
+  destruct (remove_node_facts (sv_tree acc) q H2) as [R1 [R2 R3]].
+  pose proof (SZ_remove_found (sv_tree acc) q n Hf) as R4. unfold nw in R4.
+  unfold shrink_ok, paths. cbn [set_tree sv_tree]. rewrite Ht.
+  split; [change (ids sv1 = ids sv0); congruence|]. split; [exact R1|]. split; [lia|]. split; [lia|].
+  change (tw sv1 + SZ (remove_node (sv_tree acc) q) <= tw sv0 + SZ (sv_tree sv0)). lia.
+Qed.
+
+Lemma remove_subtree_shrink : forall sv0 sv by_ p notify, NoDup (ids sv0) -> shrink_ok sv0 sv ->
+  shrink_ok sv0 (remove_subtree sv by_ p notify).
+Proof.
+  intros sv0 sv by_ p notify Hnd Hs. unfold remove_subtree.
+  generalize (removal_order (S (length (sv_tree sv))) (sv_tree sv) p). intros l. revert sv Hs.
+  induction l as [|q l IH]; intros sv Hs; cbn [fold_left]; [exact Hs|].
+  apply IH. apply (shrink_leave sv0 sv by_ notify q Hnd Hs).
+Qed.
+
+Variable fx : fixes.
+
+Lemma do_remove_data_shrink : forall sv ss keys quiet, good_sv sv -> shrink_ok sv (do_remove_data fx sv ss keys quiet).
+Proof.
+  intros sv ss keys quiet Hg. unfold do_remove_data. cbv zeta.
+  match goal with |- context [fold_left _ ?l sv] => generalize l end. intros l.
+  assert (H : forall acc, shrink_ok sv acc ->
+    shrink_ok sv (fold_left (fun sv' p => if has_node (sv_tree sv') p then remove_subtree sv' (s_id ss) p (negb quiet) else sv') l acc)).
+  { induction l as [|q l IH]; intros acc Ha; cbn [fold_left]; [exact Ha|].
+    apply IH. outer_if; [apply remove_subtree_shrink; [apply Hg|exact Ha]|exact Ha]. }
+  apply H. apply shrink_refl. exact Hg.
+Qed.
+
+Lemma shrink_step : forall sv sv', shrink_ok sv sv' -> step_ok 0 0 (SZ (sv_tree sv)) sv sv'.
+Proof. intros sv sv' [H1 [H2 [H3 [H4 H5]]]]. unfold step_ok. repeat split; try assumption; lia. Qed.
+
+(* ------------------------------------------------------------------ subscriptions *)
+
+Lemma tw_upd_same : forall sv s f, (forall x, sw (f x) = sw x) -> tw (upd_session sv s f) = tw sv.
+Proof.
+  intros sv s f Hf. unfold tw, upd_session. cbn [sv_sessions]. rewrite map_map. f_equal. apply map_ext.
+  intros x. destruct (N.eqb (s_id x) s); [apply Hf|reflexivity].
+Qed.
+
+Lemma mark_nodes_cost : forall t m s delta, NoDup (map n_path t) ->
+  map n_path (mark_nodes fx t m s delta) = map n_path t /\ SZ (mark_nodes fx t m s delta) <= SZ t + length t.
+Proof.
+  intros t m s delta Hnd. unfold mark_nodes.
+  apply (do_traversal_cost tree (continue_cb (fun acc n => adjust_subs acc (n_path n) s delta)) SZ
+           (fun acc => map n_path acc = map n_path t)); [|exact Hnd|reflexivity].
+  intros acc n HQ. unfold continue_cb. cbn [fst]. unfold adjust_subs. split.
+  - rewrite map_node_paths by reflexivity. exact HQ.
+  - apply SZ_map_node; [reflexivity| |rewrite HQ; exact Hnd]. intros n0. cbn [n_subs]. apply tbl_adjust_len.
+Qed.
+
+Lemma mark_step : forall sv m s delta, good_sv sv ->
+  step_ok 0 (length (sv_tree sv)) 0 sv (set_tree sv (mark_nodes fx (sv_tree sv) m s delta)).
+Proof.
+  intros sv m s delta [Hi Hp]. destruct (mark_nodes_cost (sv_tree sv) m s delta Hp) as [H1 H2].
+  unfold step_ok, paths. cbn [set_tree sv_tree]. rewrite H1.
+  split; [reflexivity|]. split; [exact Hp|]. split; [rewrite <- (map_length n_path), H1, map_length; lia|]. split; [lia|].
+  change (tw sv <= tw sv + 0). lia.
+Qed.
+
+Lemma tree_cqf_cb : forall s oldf newf sv n, sv_tree (cqf_cb fx s oldf newf sv n) = sv_tree sv.
+Proof.
+  intros s oldf newf sv n. unfold cqf_cb. cbv zeta. outer_if; [reflexivity|].
+  destruct (get_session sv s) as [ss|]; [|reflexivity]. outer_if; [reflexivity|apply tree_node_changed_aux].
+Qed.
+
+Lemma tw_cqf_cb : forall s oldf newf sv n, NoDup (ids sv) -> tw (cqf_cb fx s oldf newf sv n) <= tw sv + 1.
+Proof.
+  intros s oldf newf sv n Hnd. unfold cqf_cb. cbv zeta. outer_if; [lia|].
+  destruct (get_session sv s) as [ss|]; [|lia]. outer_if; [lia|apply tw_node_changed_aux; exact Hnd].
+Qed.
+
+Lemma step_upd_same : forall sv s f, good_sv sv -> (forall x, s_id (f x) = s_id x) -> (forall x, sw (f x) = sw x) ->
+  step_ok 0 0 0 sv (upd_session sv s f).
+Proof.
+  intros sv s f [Hi Hp] H1 H2. unfold step_ok, paths. rewrite ids_upd_session by exact H1. rewrite tw_upd_same by exact H2.
+  cbn [upd_session sv_tree]. repeat split; try lia; assumption.
+Qed.
+
+Lemma subscribe_one_cost : forall sv s sf, good_sv sv ->
+  step_ok 0 (length (sv_tree sv)) (length (sv_tree sv)) sv (subscribe_one fx sv s sf).
+Proof.
+  intros sv s sf Hg. unfold subscribe_one. cbv zeta.
+  destruct (get_session sv s) as [ss|]; [|eapply step_ok_weaken; [| | |apply step_ok_refl; exact Hg]; lia].
+  destruct (fix_path (fst sf)) as [|c0 fp]; [eapply step_ok_weaken; [| | |apply step_ok_refl; exact Hg]; lia|].
+  destruct (m_get (s_subs ss) (c0 :: fp)) as [e|].
+  - match goal with |- context [upd_session ?sv1 s _] => set (svt := sv1) end.
+    assert (H1 : step_ok 0 0 (length (sv_tree sv)) sv svt).
+    { assert (Ht : step_ok 0 0 (length (sv_tree sv)) sv
+                    (do_traversal (continue_cb (cqf_cb fx s (e_flt e) (snd sf))) (sv_tree sv) (single (c0 :: fp)) [] false (fx_guard fx) sv)).
+      { destruct Hg as [Hi Hp].
+        destruct (do_traversal_cost server (continue_cb (cqf_cb fx s (e_flt e) (snd sf))) tw
+                    (fun acc => ids acc = ids sv /\ sv_tree acc = sv_tree sv)
+                    ltac:(intros acc n [Q1 Q2]; unfold continue_cb; cbn [fst]; split;
+                          [split; [rewrite ids_cqf_cb; exact Q1|rewrite tree_cqf_cb; exact Q2]
+                          |apply tw_cqf_cb; rewrite Q1; exact Hi])
+                    (sv_tree sv) (single (c0 :: fp)) [] false (fx_guard fx) sv Hp (conj eq_refl eq_refl)) as [[Q1 Q2] Q3].
+        unfold step_ok, paths. rewrite Q2. repeat split; try lia; assumption. }
+      subst svt. destruct (snd sf), (e_flt e); try exact Ht.
+      eapply step_ok_weaken; [| | |apply step_ok_refl; exact Hg]; lia. }
+    pose proof (step_upd_same svt s (fun x => set_subs x (m_set_filter (s_subs x) (c0 :: fp) (snd sf)))
+                  (good_step _ _ _ _ _ Hg H1) ltac:(reflexivity) ltac:(reflexivity)) as H2.
+    pose proof (step_ok_trans _ _ _ _ _ _ _ _ _ H1 H2) as H3.
+    eapply step_ok_weaken; [| | |exact H3]; lia.
+  - pose proof (step_upd_same sv s (fun x => set_subs x (m_put (s_subs x) (c0 :: fp) (snd sf))) Hg ltac:(reflexivity) ltac:(reflexivity)) as H1.
+    set (sv1 := upd_session sv s (fun x => set_subs x (m_put (s_subs x) (c0 :: fp) (snd sf)))) in *.
+    pose proof (mark_step sv1 (single (c0 :: fp)) s 1 (good_step _ _ _ _ _ Hg H1)) as H2.
+    pose proof (step_ok_trans _ _ _ _ _ _ _ _ _ H1 H2) as H3.
+    eapply step_ok_weaken; [| | |exact H3]; try lia. subst sv1. cbn [upd_session sv_tree]. lia.
+Qed.
+
+Lemma unsubscribe_one_cost : forall sv s sp, good_sv sv ->
+  step_ok 0 (length (sv_tree sv)) 0 sv (unsubscribe_one fx sv s sp).
+Proof.
+  intros sv s sp Hg. unfold unsubscribe_one. cbv zeta.
+  destruct (get_session sv s) as [ss|]; [|eapply step_ok_weaken; [| | |apply step_ok_refl; exact Hg]; lia].
+  destruct (m_remove (s_subs ss) (fix_path sp)) as [m'|]; [|eapply step_ok_weaken; [| | |apply step_ok_refl; exact Hg]; lia].
+  pose proof (step_upd_same sv s (fun x => set_subs x m') Hg ltac:(reflexivity) ltac:(reflexivity)) as H1.
+  set (sv1 := upd_session sv s (fun x => set_subs x m')) in *.
+  pose proof (mark_step sv1 (single (fix_path sp)) s (-1) (good_step _ _ _ _ _ Hg H1)) as H2.
+  pose proof (step_ok_trans _ _ _ _ _ _ _ _ _ H1 H2) as H3.
+  eapply step_ok_weaken; [| | |exact H3]; try lia. subst sv1. cbn [upd_session sv_tree]. lia.
+Qed.
+
+(* ------------------------------------------------------------------ GETDATA *)
+
+Lemma tree_getdata_cb : forall s acc n, sv_tree (snd (fst (getdata_cb s acc n))) = sv_tree (snd acc).
+Proof.
+  intros s [reply sv] n. unfold getdata_cb. destruct (get_session sv s) as [ss|]; [|reflexivity].
+  destruct (own_node ss (n_path n)); [reflexivity|]. outer_if; reflexivity.
+Qed.
+
+Lemma sw_send : forall (x : session) r, sw (send x r) = sw x + di_weight r.
+Proof.
+  intros x r. unfold sw. cbn [send s_pending s_out]. rewrite outw_app. unfold outw at 2. cbn [map].
+  rewrite list_sum_cons. cbn [list_sum fold_right]. lia.
+Qed.
+
+Lemma tw_send_le : forall sv s r, NoDup (ids sv) -> tw (upd_session sv s (fun x => send x r)) <= tw sv + di_weight r.
+Proof.
+  intros sv s r Hnd. destruct (get_session sv s) as [ss|] eqn:Hs.
+  - apply (tw_upd_le sv s ss); [exact Hnd|exact Hs|reflexivity|]. rewrite sw_send. lia.
+  - assert (Hno : ~ In s (ids sv)) by (intros Hin; apply get_session_ids in Hin; destruct Hin as [x Hx]; congruence).
+    unfold tw, upd_session. cbn [sv_sessions]. rewrite upd_absent by exact Hno. lia.
+Qed.
+
+Lemma getdata_cb_cost : forall sv s acc n, NoDup (ids sv) -> ids (snd acc) = ids sv ->
+  ids (snd (fst (getdata_cb s acc n))) = ids sv /\
+  wopt (fst (fst (getdata_cb s acc n))) + tw (snd (fst (getdata_cb s acc n))) <= wopt (fst acc) + tw (snd acc) + 1.
+Proof.
+  intros sv s [reply sv0] n Hnd Hi. cbn [fst snd] in *. unfold getdata_cb.
+  destruct (get_session sv0 s) as [ss|]; [|cbn [fst snd]; split; [exact Hi|lia]].
+  destruct (own_node ss (n_path n)); [cbn [fst snd]; split; [exact Hi|lia]|].
+  set (r := di_add_set match reply with Some r0 => r0 | None => empty_di end (n_path n) (n_data n)).
+  assert (Hr : di_weight r = wopt reply + 1).
+  { subst r. rewrite di_weight_add_set. destruct reply; reflexivity. }
+  outer_if; cbn [fst snd wopt].
+  - split; [rewrite ids_upd_session by (intros; reflexivity); exact Hi|].
+    pose proof (tw_send_le sv0 s r ltac:(rewrite Hi; exact Hnd)). lia.
+  - split; [exact Hi|lia].
+Qed.
+
+Lemma do_get_data_cost : forall sv s keys, good_sv sv -> step_ok 0 0 (length (sv_tree sv)) sv (do_get_data fx sv s keys).
+Proof.
+  intros sv s keys [Hi Hp]. unfold do_get_data.
+  match goal with |- context [do_traversal ?cb ?t ?m ?root ?uf ?gf ?acc] =>
+    destruct (do_traversal_cost (option ditems * server) cb (fun a => wopt (fst a) + tw (snd a))
+                (fun a => ids (snd a) = ids sv /\ sv_tree (snd a) = sv_tree sv)
+                ltac:(intros acc0 n [Q1 Q2]; destruct (getdata_cb_cost sv s acc0 n Hi Q1) as [G1 G2];
+                      split; [split; [exact G1|rewrite tree_getdata_cb; exact Q2]|exact G2])
+                t m root uf gf acc Hp (conj eq_refl eq_refl)) as [[Q1 Q2] Q3];
+    destruct (do_traversal cb t m root uf gf acc) as [reply sv1]
+  end.
+  cbn [fst snd wopt] in *. unfold step_ok, paths.
+  destruct reply as [r|].
+  - rewrite ids_upd_session by (intros; reflexivity). cbn [upd_session sv_tree]. rewrite Q2.
+    split; [exact Q1|]. split; [exact Hp|]. split; [lia|]. split; [lia|].
+    pose proof (tw_send_le sv1 s r ltac:(rewrite Q1; exact Hi)) as Hle. cbn [wopt] in Q3.
+    change (tw (upd_session sv1 s (fun x => send x r)) <= tw sv + length (sv_tree sv)). lia.
+  - rewrite Q2. cbn [wopt] in Q3. repeat split; try lia; assumption.
 Qed.
 
 End Cost.
